@@ -463,5 +463,6 @@ pub fn run(tier: Tier) -> i32 {
         }
     }
     crate::lx::speaks_first_pass(&mut rep, "C16", "socks5", thorough);
+    crate::cworld::front_end_fault_pass(&mut rep, "C16", "socks5", "CONNECT");
     rep.finish("LX through the real SOCKS5 front-end: versions {0,4,5,6,255} x every method list of length <= 3 over {00,01,02,80,ff} (+ 255-long lists); every command byte 0..=255; rsv, request version, address types {0,1,2,3,4,5,255}, domain lengths {0,1,255}, unresolvable / invalid names, names with colons / brackets / zone ids / address-like names, ::1, refusing port; every truncation of the request; the canonical exchange under every single forced TCP cut and byte-at-a-time, and under every single cut with 31 / 301 s of silence between the pieces; each case checked against a reference SOCKS5 model (method selection, tunnel only for CONNECT, 'succeeded' only with a working tunnel to the requested target, failures end only their connection); non-trivial = distinct case")
 }
